@@ -550,6 +550,16 @@ class Driver:
         self.case = case
         self.spec = Spec(case)
         self.cname = case.get("cname", "m")
+        self.handles = []
+
+    def close(self):
+        """native NetworkTables handles of this case go away before the next reset"""
+        for h in self.handles:
+            try:
+                h.close()
+            except Exception:
+                pass
+        self.handles = []
 
     def fail_exc(self, e, where):
         # an exception escaping from the machine is a violation of whichever property is being checked
@@ -582,6 +592,7 @@ class Driver:
         inst = simenv.nt()
         prefix = f"/components/{self.cname}/state/"
         cs_sub = inst.getStringTopic(prefix + "current_state").subscribe("<unset>")
+        self.handles.append(cs_sub)
         pubs = {}
         durs = {}
         for n in spec.names:
@@ -701,6 +712,7 @@ class Driver:
                         else:
                             if n not in pubs:
                                 pubs[n] = inst.getDoubleTopic(prefix + n + "_duration").publish()
+                                self.handles.append(pubs[n])
                             pubs[n].set(val)
                         if twin is not None:
                             setattr(twin, n + "_duration", val)
@@ -1062,6 +1074,8 @@ class SMLab(Lab):
             model, rows = drv.run()
         except Abandon:
             model, rows = getattr(drv, "model", None), None
+        finally:
+            drv.close()
         spec = drv.spec
         if rows is not None:
             trace_rules(self.pid, spec, rows, self)
